@@ -581,7 +581,20 @@ where
                 std::slice::from_raw_parts(mmap.as_ptr(), file_size)
             };
             
-            std::fs::write(&self.file_path, content)
+            // Write a complete copy under a temporary name, flush it, then rename it over the
+            // file: an interrupted sync leaves either the old or the new content, never a
+            // truncated file or a mixture of a new header with old data
+            let mut tmp_path = self.file_path.clone().into_os_string();
+            tmp_path.push(".tmp");
+            let tmp_path = std::path::PathBuf::from(tmp_path);
+            let write_result = (|| -> std::io::Result<()> {
+                let mut file = std::fs::File::create(&tmp_path)?;
+                file.write_all(content)?;
+                file.sync_all()?;
+                drop(file);
+                std::fs::rename(&tmp_path, &self.file_path)
+            })();
+            write_result
                 .map_err(|e| ZiporaError::io_error(&format!("Failed to sync to file: {}", e)))?;
         }
         Ok(())
